@@ -206,3 +206,102 @@ theorem findCandidate_sound (key : KeyFn) (cur : Array Byte) (s : Nat) (kb : Lis
       · exact Or.inr ⟨(e.data, e.baseOffset) :: pre, ed, eb, post, by simp [hw], hg⟩
 
 end Zstd.Proofs.MG
+
+namespace Zstd.Proofs.MG
+open Zstd Zstd.Model.MG
+
+/-! ### `mismatch_chunks` computes THE maximal common prefix -/
+
+theorem cplAux_max (a b : Array Byte) (ihi jhi : Nat) (ha : ihi ≤ a.size) (hb : jhi ≤ b.size) :
+    ∀ (f i j acc : Nat), ihi - i ≤ f → i ≤ ihi → j ≤ jhi →
+      i + (cplAux a b ihi jhi f i j acc - acc) = ihi ∨ j + (cplAux a b ihi jhi f i j acc - acc) = jhi ∨
+      a[i + (cplAux a b ihi jhi f i j acc - acc)]? ≠ b[j + (cplAux a b ihi jhi f i j acc - acc)]? := by
+  intro f
+  induction f with
+  | zero => intro i j acc hf hi hj; simp [cplAux]; omega
+  | succ f ih =>
+    intro i j acc hf hi hj
+    unfold cplAux
+    split
+    · rename_i hlt
+      have hai : i < a.size := by omega
+      have hbj : j < b.size := by omega
+      have hx : a[i]? = some a[i] := by simp [hai]
+      have hy : b[j]? = some b[j] := by simp [hbj]
+      rw [hx, hy]
+      simp only []
+      split
+      · rename_i hxy
+        have hs := (cplAux_sound a b ihi jhi f (i + 1) (j + 1) (acc + 1) (by omega) (by omega)).1
+        have := ih (i + 1) (j + 1) (acc + 1) (by omega) (by omega) (by omega)
+        generalize cplAux a b ihi jhi f (i + 1) (j + 1) (acc + 1) = r at *
+        have e : r - acc = (r - (acc + 1)) + 1 := by omega
+        rw [e]
+        have e1 : i + (r - (acc + 1) + 1) = i + 1 + (r - (acc + 1)) := by omega
+        have e2 : j + (r - (acc + 1) + 1) = j + 1 + (r - (acc + 1)) := by omega
+        rw [e1, e2]
+        exact this
+      · rename_i hxy
+        right; right
+        simp only [Nat.sub_self, Nat.add_zero, hx, hy]
+        intro h
+        exact hxy (Option.some.inj h)
+    · simp only [Nat.sub_self, Nat.add_zero]
+      omega
+
+theorem commonPrefixLen_max (a : Array Byte) (i ihi : Nat) (b : Array Byte) (j jhi : Nat)
+    (ha : ihi ≤ a.size) (hb : jhi ≤ b.size) (hi : i ≤ ihi) (hj : j ≤ jhi) :
+    i + commonPrefixLen a i ihi b j jhi = ihi ∨ j + commonPrefixLen a i ihi b j jhi = jhi ∨
+    a[i + commonPrefixLen a i ihi b j jhi]? ≠ b[j + commonPrefixLen a i ihi b j jhi]? := by
+  have := cplAux_max a b ihi jhi ha hb (ihi - i) i j 0 (Nat.le_refl _) hi hj
+  simpa [commonPrefixLen] using this
+
+/-- a number `r` is the length of the maximal common prefix of `a[i..ihi]` and `b[j..jhi]` -/
+def IsMaxCommonPrefix (a : Array Byte) (i ihi : Nat) (b : Array Byte) (j jhi : Nat) (r : Nat) : Prop :=
+  i + r ≤ ihi ∧ j + r ≤ jhi ∧ (∀ k, k < r → a[i + k]? = b[j + k]?) ∧
+  (i + r = ihi ∨ j + r = jhi ∨ a[i + r]? ≠ b[j + r]?)
+
+theorem isMaxCommonPrefix_unique {a : Array Byte} {i ihi : Nat} {b : Array Byte} {j jhi r1 r2 : Nat}
+    (h1 : IsMaxCommonPrefix a i ihi b j jhi r1) (h2 : IsMaxCommonPrefix a i ihi b j jhi r2) : r1 = r2 := by
+  obtain ⟨a1, a2, a3, a4⟩ := h1
+  obtain ⟨b1, b2, b3, b4⟩ := h2
+  rcases Nat.lt_trichotomy r1 r2 with h | h | h
+  · rcases a4 with h' | h' | h'
+    · omega
+    · omega
+    · exact absurd (b3 r1 h) h'
+  · exact h
+  · rcases b4 with h' | h' | h'
+    · omega
+    · omega
+    · exact absurd (a3 r2 h) h'
+
+theorem commonPrefixLen_isMax (a : Array Byte) (i ihi : Nat) (b : Array Byte) (j jhi : Nat)
+    (ha : ihi ≤ a.size) (hb : jhi ≤ b.size) (hi : i ≤ ihi) (hj : j ≤ jhi) :
+    IsMaxCommonPrefix a i ihi b j jhi (commonPrefixLen a i ihi b j jhi) := by
+  obtain ⟨h1, h2, h3⟩ := commonPrefixLen_sound a i ihi b j jhi hi hj
+  exact ⟨h1, h2, h3, commonPrefixLen_max a i ihi b j jhi ha hb hi hj⟩
+
+/-- `mismatch_chunks::<N>` (whole chunks first, then bytes) returns the maximal common prefix
+length, for every chunk size `N` -/
+theorem mismatchChunks_isMax (N : Nat) (a : Array Byte) (i ihi : Nat) (b : Array Byte) (j jhi : Nat)
+    (ha : ihi ≤ a.size) (hb : jhi ≤ b.size) (hi : i ≤ ihi) (hj : j ≤ jhi) :
+    IsMaxCommonPrefix a i ihi b j jhi (mismatchChunks N a i ihi b j jhi) := by
+  obtain ⟨h1, h2, h3⟩ := mismatchChunks_sound N a i ihi b j jhi hi hj
+  refine ⟨h1, h2, h3, ?_⟩
+  obtain ⟨_, c2, c3, _⟩ := chunkPhase_sound N a b ihi jhi (ihi - i) i j 0 hi hj
+  simp only [Nat.sub_zero] at c2 c3
+  unfold mismatchChunks
+  generalize chunkPhase N a b ihi jhi (ihi - i) i j 0 * N = off at *
+  have := commonPrefixLen_max a (i + off) ihi b (j + off) jhi ha hb c2 c3
+  simp only []
+  generalize commonPrefixLen a (i + off) ihi b (j + off) jhi = r at *
+  simpa [Nat.add_assoc] using this
+
+theorem mismatchChunks_eq_commonPrefixLen (N : Nat) (a : Array Byte) (i ihi : Nat) (b : Array Byte) (j jhi : Nat)
+    (ha : ihi ≤ a.size) (hb : jhi ≤ b.size) (hi : i ≤ ihi) (hj : j ≤ jhi) :
+    mismatchChunks N a i ihi b j jhi = commonPrefixLen a i ihi b j jhi :=
+  isMaxCommonPrefix_unique (mismatchChunks_isMax N a i ihi b j jhi ha hb hi hj)
+    (commonPrefixLen_isMax a i ihi b j jhi ha hb hi hj)
+
+end Zstd.Proofs.MG
